@@ -282,13 +282,12 @@ def run_cli(rec):
             n += 1
             skool = out.getvalue()
             # #TSTATES over every instruction of that skool file
-            addrs = [int(l[1:6]) for l in skool.split('\n') if l[:1] in 'c*' and l[1:6].isdigit() and not l[7:11].upper().startswith('DEF')]
+            addrs = [int(l[1:6]) for l in skool.split('\n') if l[:1] in ('c', '*', ' ') and l[1:6].isdigit() and not l[7:11].upper().startswith('DEF')]
+            if len(addrs) < 1700:
+                raise RuntimeError('C07 harness: only %d instruction lines found in the sna2skool output' % len(addrs))
             lines = skool.split('\n')
             probe = '; T\n;\n; ' + ' '.join('#TSTATES%d' % x for x in addrs) + '\n'
             # place the probe as the description of the first entry
-            for i, l in enumerate(lines):
-                if l.startswith('; Routine at') or l.startswith('; Data block') or (l.startswith('; ') and i + 1 < len(lines)):
-                    break
             idx = next(i for i, l in enumerate(lines) if l[:1] in 'cb' and l[1:6].isdigit())
             # find start of that entry's header
             h = idx
